@@ -4,7 +4,7 @@ For the property under check, every rule is exercised on scratch copies of /repo
 /verif, removed immediately):
   must-fire     single-edit mutants (mutants.py) and the confirmed seeded changes under /verif/seeded/<id>-k that this
                 property's check is recorded to detect -> the check must report a finding (not an analysis error)
-  must-silent   behaviour-preserving refactor twins -> no new finding
+  must-silent   behaviour-preserving refactor twins (all of them, whichever property they were written for) -> no new finding
 A rule that stops firing on its mutant, or a twin that raises an alarm, fails the run with exit 2 (the checker is broken,
 nothing it reports is believed).  Mutants whose anchor text is no longer present are skipped and listed; if more than half of
 a property's mutants are skipped the run fails (the self-test would be vacuous).
@@ -99,7 +99,8 @@ def run_for(pid, mod, seed=0):
     base = common.REPO
     items = []
     for m in mutants.MUTANTS:
-        if pid in m["pids"]:
+        # a behaviour-preserving twin must leave *every* property's check silent, not only the check it was written for
+        if pid in m["pids"] or (m.get("expect") == "silent" and m["name"].startswith("twin:")):
             items.append((pid, m["name"], "edit", {"file": m["file"], "old": m["old"], "new": m["new"]}, m.get("expect", "fire"), base))
     det = mutants.SEED_DETECTION
     for d in sorted(glob.glob(os.path.join(VERIF, "seeded", "*"))):
